@@ -35,3 +35,9 @@ claim("C15",
   "Histories of init / shutdown / re-init / double shutdown by 4 accounts with balances around the price, interleaved with CollateralPrice changes in both directions; after every step the escrow account balance must equal the sum of Collateral records and the model, init debits exactly the current price, shutdown credits exactly the recorded amount once and removes provider and record. Falsification only.",
   "CollateralPrice is changed through the keeper's SetParams (values the validator accepts) standing in for governance; fork mode without ante handler.",
   "DESIGN.md section 4 C15")
+
+claim("C12",
+  "property-based test (rapid) over generated gauge sets and reward-block schedules on a fork of the real app; exact big.Int pro-rata oracle per gauge account",
+  "1-5 concurrently live gauges from real purchases, pay-once posts and keeper-level creation (amounts 0..1e15, durations 1us..10y, odd nanosecond parts), twins created in the same block with equal end and coins, reward blocks at increments from 0 and 1us to beyond the end and at generated per-mille positions of a live gauge's remaining time. Every reward block checks every gauge: cumulative release within 1 of floor(D*elapsed/total) in whole microseconds, monotone, <= D, nothing outside the interval, pool credited exactly. The same-block id collision found this way is fixed in /repo (18cbf05d).",
+  "No provers exist in this world so the pool only receives; coin amounts <= 1e15; the unreleased remainder of a gauge first seen after its end is outside the property (only 'nothing more' is asserted).",
+  "DESIGN.md section 4 C12")
